@@ -2,6 +2,7 @@
 //! Runs the correspondence + oracle checks of one property against the real implementation
 //! (linked in-process from /repo with the verification hooks enabled) and writes a JSON report.
 mod c01;
+mod c03;
 mod c10;
 mod corpus;
 mod ctx;
@@ -40,11 +41,14 @@ fn main() {
         report: Default::default(),
         corpus_dir: arg(&args, "--corpus", "/verif/corpus").into(),
         budget: arg(&args, "--budget", "1").parse().expect("--budget"),
+        prop: prop.clone(),
+        current_case_file: arg(&args, "--current", "/dev/null").into(),
     };
     let t0 = std::time::Instant::now();
     match prop.as_str() {
         "c10" => c10::run(&mut ctx),
         "c01" => c01::run(&mut ctx),
+        "c03" | "c09" => c03::run(&mut ctx),
         other => {
             eprintln!("unknown property {}", other);
             std::process::exit(2);
